@@ -253,7 +253,7 @@ struct PGMIndex<K, Epsilon, EpsilonRecursive, Floating>::Segment {
      */
     inline size_t operator()(const K &k) const {
         double p;
-        if constexpr (std::is_same_v<K, int64_t> || std::is_same_v<K, int32_t>)
+        if constexpr (std::is_integral_v<K> && std::is_signed_v<K> && sizeof(K) >= sizeof(int))
             p = slope * double(std::make_unsigned_t<K>(k) - key);
         else
             p = slope * double(k - key);
